@@ -34,6 +34,10 @@ PROFILE_STARTOBJ = S.profile(cond_mandatory_only=True, min_tasks=2, max_tasks=4,
 PROFILE_WINDOWS = S.profile(cond_mandatory_only=True, min_tasks=2, max_tasks=4, horizon=(3, 7), p_resources=100, n_workers=(2, 3), p_select=15, p_cumulative=10, task_constraints=(0, 1), optional_rules=(0, 0),
                             resource_constraints=(2, 3), focus=["WorkLoad"], objectives=(0, 1), p_optional=25, p_work_amount=5, p_reuse_window=80,
                             exclude=("SameWorkers", "DistinctWorkers", "ResourceNonDelay", "ResourceTasksDistance", "ResourceInterrupted", "ResourcePeriodicallyInterrupted", "ResourcePeriodicallyUnavailable", "ResourceUnavailable"))
+# elements that sort declaration-ordered lists (idle indicator, concurrent buffers) with >= 3 entries
+PROFILE_SORT = S.profile(cond_mandatory_only=True, min_tasks=3, max_tasks=4, horizon=(4, 8), p_no_horizon=0, p_resources=100, n_workers=(1, 2), p_select=10, p_cumulative=0,
+                         task_constraints=(0, 1), optional_rules=(0, 0), resource_constraints=(0, 0), buffers=(0, 1), indicators=(1, 2), indicator_types=["ResourceIdle", "ResourceIdle", "MaxBufferLevel"],
+                         indicator_constraints=40, objectives=(0, 1), only_objectives=["MinimizeIndicator", "MaximizeIndicator"], p_optional=15, p_work_amount=0)
 PREFIX_PROFILE = S.profile(cond_mandatory_only=True, min_tasks=1, max_tasks=3, p_resources=60, task_constraints=(0, 1), optional_rules=(0, 0), resource_constraints=(0, 1), objectives=(0, 1), p_optional=40)
 NAME_POOL = ["a", "b", "x", "t", "A1", "Task", "task_1", "task_2", "W", "worker", "Ωmega", "tâche", "name with space", "a.b", "x_start", "x_end", "q" * 24,
              "T1", "T2", "T3", "W1", "W2", "K1", "S1", "B1", "c1", "z_busy", "_lead", "n-1", "0", "17", "Selected", "horizon2"]
@@ -225,6 +229,17 @@ def _lane(w, mm):
     return _res_name(w, mm)
 
 
+def _delivered_profile(b):
+    """level profile as delivered with a solution: one level per distinct instant, parking instants (< 0) left out"""
+    levels, times = ref.dedup_reported(b["levels"], b["times"])
+    out_l, out_t = [levels[0]], []
+    for lv, tm in zip(levels[1:], times):
+        if tm >= 0:
+            out_l.append(lv)
+            out_t.append(tm)
+    return out_l, out_t
+
+
 def optimum(spec, seed):
     h = B.build(spec, seed, solver_kwargs={"optimizer": "incremental"})
     sol = h.solver.solve()
@@ -285,7 +300,7 @@ def prop(ctx, case):
         for origin, sched, _m in ex.schedules(case["pins"], enum_cap=0, extremal=1):
             c = engine.to_candidate(spec, sched)
             cm = map_candidate(spec, twin, m, c)
-            r, _, _ = sb.admitted(cm)
+            r, twin_sched, _ = sb.admitted(cm)
             ctx.evaluation()
             if r == "unknown":
                 ctx.inconclusive += 1
@@ -294,6 +309,23 @@ def prop(ctx, case):
                 return
             else:
                 n_cross += 1
+                # the same schedule must carry the same indicator values and buffer profiles in the twin (only where the
+                # documented value is exact, so that existential choices such as cumulative lanes cannot differ legitimately)
+                vd = ref.judge(spec, sched, from_model=True)
+                for i in spec["indicators"]:
+                    rng = ref.indicator_value(i, vd.view, spec)
+                    if rng is None or rng[0] != rng[1]:
+                        continue
+                    a, b = sched["indicators"].get(i["id"]), twin_sched["indicators"].get(i["id"])
+                    if a != b:
+                        viol("indicator_value_depends_on_names_or_order", {"indicator": i, "original": a, "twin": b}, {"schedule": c})
+                        return
+                for bspec in spec["buffers"]:
+                    bo = sched["buffers"].get(bspec["name"])
+                    bt = twin_sched["buffers"].get(m["buffer"].get(bspec["name"], bspec["name"]))
+                    if bo and bt and _delivered_profile(bo) != _delivered_profile(bt):
+                        viol("buffer_profile_depends_on_names_or_order", {"buffer": bspec["name"], "original": bo, "twin": bt}, {"schedule": c})
+                        return
         ex2 = engine.Explorer(ctx, twin, seed + 1)
         ex2.sess = sb
         for origin, sched, _m in ex2.schedules([], enum_cap=0, extremal=1):
@@ -334,6 +366,7 @@ def run_shard(ctx):
     run_hypothesis(ctx, cases(PROFILE_PARK), prop, max_examples=n // 2)
     run_hypothesis(ctx, cases(PROFILE_STARTOBJ), prop, max_examples=n // 2)
     run_hypothesis(ctx, cases(PROFILE_WINDOWS), prop, max_examples=n)
+    run_hypothesis(ctx, cases(PROFILE_SORT), prop, max_examples=n // 2)
 
 
 def replay(record):
